@@ -1686,6 +1686,18 @@ func (db *DB) checkDatabaseBehindReplica(ctx context.Context) error {
 		return fmt.Errorf("copy L0 file: %w", err)
 	}
 
+	// A download that ends early reports a clean EOF. Verify the copy before
+	// it becomes the local baseline; a truncated file there would fail every
+	// later sync until the local state is reset by hand.
+	if _, err := tmpFile.Seek(0, io.SeekStart); err != nil {
+		_ = tmpFile.Close()
+		return fmt.Errorf("seek L0 file: %w", err)
+	}
+	if err := ltx.NewDecoder(tmpFile).Verify(); err != nil {
+		_ = tmpFile.Close()
+		return fmt.Errorf("verify L0 file: %w", err)
+	}
+
 	if err := tmpFile.Sync(); err != nil {
 		_ = tmpFile.Close()
 		return fmt.Errorf("sync L0 file: %w", err)
